@@ -219,11 +219,16 @@ def gen_sparse(run):
           if side != "num" and max(d1, 1) == d2:
             continue
           yield (side, d1, d2, kind)
+  # long delay lines (beyond 64 taps of memory): finite and periodic coefficient streams
+  for side in ("num", "den", "both"):
+    for d1, d2 in ((0, 64), (1, 65), (2, 130), (64, 65), (65, 200)):
+      for kind in ("F5", "P"):
+        yield (side, d1, d2, kind)
 
 
 def run_sparse(case):
   side, d1, d2, kind = case
-  N = 30
+  N = 30 if d2 < 20 else d2 + 40
   x = syms("x", N)
   T = N + 2
   sources = []
@@ -546,6 +551,72 @@ def run_long(case):
   return R(None, True, (n > 200, route))
 
 
+# ----------------------------------- one coefficient hub (thub) used in several filters
+from audiolazy import thub as _thub
+
+HUB_USES = OrderedDict([
+  # name -> (builder from the hub k, reference {delay: f(c)} on numerator, on denominator)
+  ("k*(1+z^-1)", (lambda k: k * (1 + z ** -1), {0: lambda c: c, 1: lambda c: c}, {0: lambda c: 1})),
+  ("(1+z^-1)*k", (lambda k: (1 + z ** -1) * k, {0: lambda c: c, 1: lambda c: c}, {0: lambda c: 1})),
+  ("1-k*z^-1", (lambda k: 1 - k * z ** -1, {0: lambda c: 1, 1: lambda c: -c}, {0: lambda c: 1})),
+  ("k*(1+z^-1+z^-2)", (lambda k: k * (1 + z ** -1 + z ** -2), {0: lambda c: c, 1: lambda c: c, 2: lambda c: c}, {0: lambda c: 1})),
+  ("k*z^-2", (lambda k: k * z ** -2, {2: lambda c: c}, {0: lambda c: 1})),
+  ("1/(1-k*z^-1)", (lambda k: 1 / (1 - k * z ** -1), {0: lambda c: 1}, {0: lambda c: 1, 1: lambda c: -c})),
+  ("k+z^-1", (lambda k: k + z ** -1, {0: lambda c: c, 1: lambda c: 1}, {0: lambda c: 1})),
+])
+
+
+def gen_hub(run):
+  names = list(HUB_USES)
+  for n in (2, 3):
+    for uses in itertools.permutations(names, n):
+      yield (list(uses), "same-order")
+      if n == 2:
+        yield (list(uses), "interleaved")
+
+
+def run_hub(case):
+  """k = thub(coefficients, n) handed to n different filter expressions: every expression sees the whole
+  coefficient sequence from its start (the hub promises n independent uses), whatever the number of
+  terms of the other operand, and the source is read once per output sample of the furthest filter."""
+  uses, how = case
+  N = 7
+  cvals = [F(2) + F(n, 3) for n in range(N + 2)]
+  src = CountingSource([Q(v) for v in cvals], name="hub-source")
+  k = _thub(Stream(src), len(uses))
+  x = syms("x", N)
+  try:
+    filts = [HUB_USES[u][0](k) for u in uses]
+  except Exception as exc:
+    return bad("tv-hub:build:" + type(exc).__name__, "building filters from one coefficient hub raised (it was created "
+               "with as many uses as there are expressions)", {"uses": uses}, str(exc)[:200], True)
+  try:
+    outs = [f(list(x), zero=Q(0)) for f in filts]
+    if how == "interleaved":
+      its = [iter(o) for o in outs]
+      gots = [[] for _ in its]
+      for _ in range(N):
+        for g, it_ in zip(gots, its):
+          g.append(Sym.lift(next(it_)))
+    else:
+      gots = [[Sym.lift(v) for v in o] for o in outs]
+  except Exception as exc:
+    return bad("tv-hub:exception:" + type(exc).__name__, "running the filters raised", {"uses": uses}, str(exc)[:200], True)
+  for u, got in zip(uses, gots):
+    _, rn, rd = HUB_USES[u]
+    num = {d: [fn(c) if True else None for c in cvals] for d, fn in rn.items()}
+    den = {d: [fn(c) for c in cvals] for d, fn in rd.items()}
+    num = {d: [F(v) for v in s_] for d, s_ in num.items()}
+    den = {d: [F(v) for v in s_] for d, s_ in den.items()}
+    exp = tv_apply(num, den, x)
+    if len(got) != len(exp) or any(g is None or not (g == e) for g, e in zip(got, exp)):
+      return bad("tv-hub:value", "%s: a filter built from one use of a coefficient hub must see the whole coefficient "
+                 "sequence" % u, {"uses": uses, "y": exp[:4]}, got[:4], True)
+  if src.pulls > N + 1:
+    return bad("tv-hub:pulls", "the hub's source must be read once per output sample", N, src.pulls, True)
+  return R(None, True, (len(uses), how))
+
+
 KINDS = OrderedDict([
   ("shapes", Kind(gen_shapes, run_shape, chunk=300,
                   rule="coefficient kind placements x construction route; non-trivial: >=1 Stream coefficient")),
@@ -558,4 +629,5 @@ KINDS = OrderedDict([
   ("conststream", Kind(gen_conststream, run_conststream, chunk=60,
                        rule="every subset of coefficients replaced by constant streams")),
   ("long", Kind(gen_long, run_long, chunk=1, timeout=300, rule="periodic / constant coefficient streams over 64, 65, 130, 300 (1000) samples")),
+  ("hub", Kind(gen_hub, run_hub, chunk=20, rule="one thub of coefficients x ordered selections of 2 or 3 filter expressions x consumption order")),
 ])
